@@ -123,7 +123,7 @@ class FuncSignalDriver:
             self.objs.append(self._new(last['g'], last['fn']))
         elif op == 'Read':
             self.read(i, last['res'], 'objs[%d].values' % (i + 1))
-        elif op in ('Shift', 'IMul', 'IDiv', 'Filter', 'SetBuffers', 'Resample', 'AssignTimes'):
+        elif op in ('Shift', 'IMul', 'IDiv', 'Filter', 'SetBuffers', 'SetBuffersFail', 'Resample', 'AssignTimes'):
             for o, sc in self.objs[i].each():
                 if o is None:
                     continue
@@ -145,6 +145,14 @@ class FuncSignalDriver:
                     ld = None if last['lead'] == -1 else last['lead'] / 2.0 * sc
                     tr = None if last['trail'] == -1 else last['trail'] / 2.0 * sc
                     o.set_buffers(leading=ld, trailing=tr, force=bool(last['force']))
+                elif op == 'SetBuffersFail':
+                    ld = None if last['lead'] == -1 else last['lead'] / 2.0 * sc
+                    try:
+                        o.set_buffers(leading=ld, trailing=-1.0 * sc, force=bool(last['force']))
+                    except ValueError:
+                        pass
+                    else:
+                        raise Divergence('set_buffers(trailing < 0)', 'ValueError', 'accepted')
                 elif op == 'Resample':
                     o.resample(last['n'])
                 elif op == 'AssignTimes':
